@@ -40,6 +40,7 @@ package tree
 // ---------------------------------------------------------------- node.go: read-only
 
 //@ fn node.size
+//@   requires [C06] lock: heldR(n)
 //@   requires n != nil
 //@   nopanic
 //@   ensures result == len(n.handlers)
@@ -50,12 +51,14 @@ package tree
 //@   ensures result == n.pattern
 //
 //@ fn node.priority
+//@   requires [C06] lock: heldR(n)
 //@   requires n != nil && n.segment != nil && 0 <= n.segment.Type && n.segment.Type <= 3
 //@   nopanic
 //@   ensures [C02] kind-major: result == n.segment.Type * 10 + ((len(n.children) == 0) ? 1 : 0) + (n.segment.Endpoint ? 1 : 0)
 //
 // matchChildren: depth-first search below n. A failed search restores the path and leaves no parameter behind.
 //@ fn node.matchChildren
+//@   requires [C06] lock: heldR(n)
 //@   requires n != nil && allocated(n) && ctx != nil && allSafe()
 //@   ensures [C01,C05] found: result != nil ==> allocated(result) && len(result.handlers) > 0 && ctx.Path == "" && result.root == n.root
 //@   ensures [C01] restore-path: result == nil ==> ctx.Path == old(ctx.Path)
@@ -65,12 +68,14 @@ package tree
 //@   inv 1 [C01] no-leftover: forall x string :: in(x, ctx.params) ==> old(in(x, ctx.params)) && ctx.params[x] == old(ctx.params[x])
 //
 //@ fn node.find
+//@   requires [C06] lock: heldR(n)
 //@   requires n != nil && allocated(n) && allSafe()
 //@   nopanic
 //@   ensures [C10,C03] allocated: result != nil ==> allocated(result) && result.root == n.root && result.parent != nil
 //@   inv 1 [C05] bound: -1 <= rangeindex && rangeindex < len(n.children)
 //
 //@ fn Tree.Find
+//@   requires [C06] lock: theldR(tree)
 //@   requires treeOK(tree) && allSafe()
 //@   nopanic
 //@   ensures [C10,C03] allocated: result != nil ==> allocated(result) && result.root == tree && result.parent != nil
@@ -101,12 +106,14 @@ package tree
 //
 // The comparison closure of node.sort, and its lifting to calls made by slices.SortStableFunc.
 //@ fn node.sort$1
+//@   requires [C06] lock: heldR(a) && heldR(b)
 //@   requires a != nil && b != nil && a.segment != nil && b.segment != nil && 0 <= a.segment.Type && a.segment.Type <= 3 && 0 <= b.segment.Type && b.segment.Type <= 3
 //@   nopanic
 //@   ensures [C02] cmp: result == prio(a) - prio(b)
 //@ axiom forall a *node, b *node :: pure0("slices.cmp", funcval("tree.node.sort$1"), a, b) == prio(a) - prio(b)
 //
 //@ fn node.buildIndexes
+//@   requires [C06] lock: heldW(n)
 //@   requires n != nil && allocated(n) && kidsOK(n) && sortedKinds(n) && sepOK()
 //@   nopanic
 //@   modifies tree.node.indexes: n
@@ -119,6 +126,7 @@ package tree
 //@   inv 1 [C03,C05,C01] partial: forall b byte :: in(b, n.indexes) ==> 0 <= n.indexes[b] && n.indexes[b] <= rangeindex && n.children[n.indexes[b]].segment.Type == 0
 //
 //@ fn node.newChild
+//@   requires [C06] lock: heldW(n)
 //@   requires node: n != nil && allocated(n) && n.root != nil
 //@   requires seg: segOK(s) && len(s.Value) > 0
 //@   requires sep: sepOK()
@@ -132,6 +140,7 @@ package tree
 //@        (forall i int :: 0 <= i && i < old(len(n.children)) ==> n.children[i] == old(n.children[i]))
 //
 //@ fn removeNodes
+//@   requires [C06] lock: forall i int :: 0 <= i && i < len(nodes) ==> heldR(nodes[i])
 //@   modifies @nodes
 //@   requires forall i int :: 0 <= i && i < len(nodes) ==> nodes[i] != nil && nodes[i].segment != nil
 //@   nopanic
@@ -144,6 +153,7 @@ package tree
 //@   inv 1 [C03] nomatch: forall i int :: 0 <= i && i <= rangeindex ==> nodes[i].segment.Value != pattern
 //
 //@ fn node.sort
+//@   requires [C06] lock: heldW(n)
 //@   requires node: n != nil && allocated(n)
 //@   requires kids: kidsOK(n)
 //@   requires sep: sepOK()
@@ -152,6 +162,7 @@ package tree
 //@   ensures [C03,C05] sep: sepOK()
 //@   ensures [C03,C05] same-array: arr(n.children) == old(arr(n.children))
 //@   atcall slices.SortStableFunc [C05] elements: forall i int :: 0 <= i && i < len(arg0) ==> arg0[i] != nil && arg0[i].segment != nil && 0 <= arg0[i].segment.Type && arg0[i].segment.Type <= 3
+//@   atcall slices.SortStableFunc [C06] elements-locked: forall i int :: 0 <= i && i < len(arg0) ==> heldR(arg0[i])
 //@   ensures [C02,C03] kids: kidsOK(n) && sortedKinds(n) && idxOK(n) && len(n.children) == old(len(n.children))
 //@   ensures [C03] permutation: forall j int :: 0 <= j && j < len(n.children) ==> (exists k int :: 0 <= k && k < len(n.children) && n.children[k] == old(n.children[j]))
 
@@ -160,6 +171,7 @@ package tree
 //@ pred segsOK(segs []*syntax.Segment) = forall k int :: 0 <= k && k < len(segs) ==> segOK(segs[k]) && len(segs[k].Value) > 0
 //
 //@ fn splitNode
+//@   requires [C06] lock: heldW(n)
 //@   requires n != nil && allocated(n) && allSafe() && sepOK() && rootOK(n) && pos > 0 && n.parent != nil
 //@   requires [C05] cut: shapeOK(n.segment.Value[:pos]) && shapeOK(n.segment.Value[pos:])
 //@   requires nodes: nodeSafe(n) && nodeSafe(n.parent) && kidsOK(n.parent) && sortedKinds(n.parent) && parentOK(n)
@@ -175,6 +187,7 @@ package tree
 //@   ensures [C03] err: result1 != nil ==> result0 == nil
 //
 //@ fn node.addSegment
+//@   requires [C06] lock: heldW(n)
 //@   requires n != nil && allocated(n) && allSafe() && sepOK() && rootOK(n) && segOK(seg) && len(seg.Value) > 0
 //@   ensures [C03,C05] ok: result1 == nil ==> result0 != nil && allocated(result0) && result0.root == n.root
 //@   ensures [C03,C05] safe: result1 == nil ==> allSafe() && sepOK()
@@ -183,18 +196,21 @@ package tree
 //@   inv 1 [C05] best: l >= 0 && (l > 0 ==> child != nil && allocated(child) && child.parent != nil && child.root == n.root && l <= len(child.segment.Value) && l <= len(seg.Value))
 //
 //@ fn node.getNode
+//@   requires [C06] lock: heldW(n)
 //@   requires n != nil && allocated(n) && allSafe() && sepOK() && rootOK(n) && len(segments) >= 1 && segsOK(segments)
 //@   ensures [C03,C05] ok: result1 == nil ==> result0 != nil && allocated(result0) && result0.root == n.root
 //@   ensures [C03,C05] safe: result1 == nil ==> allSafe() && sepOK()
 //@   ensures [C03] err: result1 != nil ==> result0 == nil
 //
 //@ fn Tree.getNode
+//@   requires [C06] lock: theldW(tree)
 //@   requires treeOK(tree) && allSafe() && sepOK()
 //@   ensures [C03,C05] ok: result1 == nil ==> result0 != nil && allocated(result0) && result0.root == tree
 //@   ensures [C03,C05] safe: result1 == nil ==> allSafe() && sepOK()
 //@   ensures [C03] err: result1 != nil ==> result0 == nil
 //
 //@ fn node.clean
+//@   requires [C06] lock: heldW(n)
 //@   requires n != nil && allocated(n) && allSafe() && sepOK()
 //@   ensures [C03,C05] safe: allSafe() && sepOK()
 //@   inv 1 [C05] bound: -1 <= rangeindex && rangeindex < len(n.children) && allSafe() && sepOK()
@@ -243,6 +259,7 @@ package tree
 //@   inv 1 [C07] fresh: fresh(methods) && unchangedMaps("[]string")
 //
 //@ fn node.buildMethods
+//@   requires [C06] lock: heldW(n)
 //@   requires n != nil && n.root != nil && (n.root.hasTrace ==> !in("TRACE", n.handlers))
 //@   modifies []string:
 //@   ensures [C04] mask: n.methodIndex == maskOf(dom(n.handlers)) + ((n.root.hasTrace && len(n.handlers) > 0) ? 64 : 0)
@@ -266,6 +283,7 @@ package tree
 //@ pred mapSame(m map[string]T, d0 `(Array String Bool)`, v0 `(Array String Int)`) = dom(m) == d0 && vals(m) == v0
 //
 //@ fn node.addMethods
+//@   requires [C06] lock: heldW(n)
 //@   requires n != nil && n.handlers != nil && n.root != nil && n.root.optionsBuilder != nil && n.root.methodNotAllowedBuilder != nil && n.root.node != nil && n.root.methods != nil
 //@   requires (in("HEAD", n.handlers) <==> in("GET", n.handlers)) && (n.root.hasTrace ==> !in("TRACE", n.handlers))
 //@   ensures [C17] err-unchanged: result != nil ==> dom(n.handlers) == old(dom(n.handlers)) && vals(n.handlers) == old(vals(n.handlers)) && n.methodIndex == old(n.methodIndex)
@@ -287,6 +305,7 @@ package tree
 //@   inv 2 [C08] head: (in("HEAD", n.handlers) <==> in("GET", n.handlers)) && (n.root.hasTrace ==> !in("TRACE", n.handlers))
 
 //@ fn Tree.buildMethods
+//@   requires [C06] lock: theldW(tree)
 //@   requires tree != nil && tree.node != nil && tree.methods != nil
 //@   modifies []string:
 //@   ensures [C07] memo-read-only: dom(methodIndexes) == old(dom(methodIndexes)) && vals(methodIndexes) == old(vals(methodIndexes))
@@ -309,3 +328,29 @@ package tree
 //@   inv 1 [C04] only: forall k string :: in(k, methodIndexMap) ==> (exists j int :: 0 <= j && j <= rangeindex && Methods[j] == k)
 //@   inv 2 [C04,C07] tables: methodIndexMap != nil && methodIndexes != nil && (forall k string :: methodIndexMap[k] == bit(k)) && (forall k string :: in(k, methodIndexMap) <==> bit(k) != 0)
 //@   inv 2 [C04,C07] memo: 0 <= rangeint && rangeint < 512 && (forall j int :: 0 <= j && j < rangeint ==> in(j, methodIndexes))
+
+//@ fn Tree.Routes
+//@   requires treeOK(tree) && allSafe() && lockFree(tree)
+//
+//@ fn Tree.URL
+//@   requires treeOK(tree) && allSafe() && lockFree(tree) && buf != nil
+//
+//@ fn node.routes
+//@   requires [C06] lock: heldR(n)
+//@   requires n != nil && allocated(n) && allSafe() && routes != nil
+//
+//@ fn node.countMethods
+//@   requires [C06] lock: heldR(n)
+//@   requires n != nil && allocated(n) && allSafe() && methods != nil
+//
+//@ fn Tree.rebuildMethods
+//@   requires [C06] lock: theldW(tree)
+//@   requires treeOK(tree) && allSafe()
+//
+//@ fn Tree.checkAmbiguous
+//@   requires [C06] lock: theldR(tree)
+//@   requires treeOK(tree) && allSafe()
+//
+//@ fn node.checkAmbiguous
+//@   requires [C06] lock: heldR(n)
+//@   requires n != nil && allocated(n) && allSafe() && rootOK(n)
